@@ -53,6 +53,9 @@ SELECTIONS = [
     ("only leaves\nonly tutorial_get\n", {"vm1": "only CentOS\n", "vm2": "only Win10\n", "vm3": "only Ubuntu\n"}, "net1 net2"),
     ("only normal\nonly tutorial1\n", {"vm1": "only CentOS\n", "vm2": "only Win10\n", "vm3": "only Ubuntu\n"}, "net0"),
     ("only normal\nonly tutorial3\n", {"vm1": "only CentOS\n", "vm2": "only Win10\n", "vm3": "only Ubuntu\n"}, "cluster1.net6 cluster1.net7"),
+    # other vm variants: two vms needing equally named states from different setup tests
+    ("only normal\nonly tutorial3\n", {"vm1": "only Fedora\n", "vm2": "only Win10\n", "vm3": "only Ubuntu\n"}, "net1 net2"),
+    ("only normal\nonly tutorial1,tutorial3\n", {"vm1": "only Fedora\n", "vm2": "only Win7\n", "vm3": "only Ubuntu\n"}, "net1 net2"),
 ]
 
 
